@@ -250,6 +250,39 @@ func ruleForeignSeq(c *Ctx, rule string) {
 func ruleQueryReadOnly(c *Ctx, rule string, builders map[string]bool) {
 	pkg := modPath + "/index/kmerindex"
 	sp := c.SPkgs[c.pkg("index/kmerindex").PkgPath]
+	// everything the builders call, or hand on as a function value (callbacks written as methods), builds too
+	building := map[*ssa.Function]bool{}
+	var mark func(f *ssa.Function)
+	mark = func(f *ssa.Function) {
+		if f == nil || building[f] || f.Pkg != sp && f.Synthetic == "" {
+			return
+		}
+		building[f] = true
+		for _, a := range f.AnonFuncs {
+			mark(a)
+		}
+		for _, b := range f.Blocks {
+			for _, ins := range b.Instrs {
+				for _, op := range ins.Operands(nil) {
+					switch x := (*op).(type) {
+					case *ssa.Function:
+						// a query that a builder calls does not become a builder
+						if ci, ok := ins.(ssa.CallInstruction); ok && ci.Common().StaticCallee() == x && f.Synthetic == "" {
+							continue
+						}
+						mark(x)
+					case *ssa.MakeClosure:
+						mark(x.Fn.(*ssa.Function))
+					}
+				}
+			}
+		}
+	}
+	for _, fn := range srcFuncs(sp) {
+		if fn.Parent() == nil && fn.Signature.Recv() != nil && builders[fn.Name()] {
+			mark(fn)
+		}
+	}
 	n := 0
 	for _, fn := range srcFuncs(sp) {
 		root := fn
@@ -259,7 +292,7 @@ func ruleQueryReadOnly(c *Ctx, rule string, builders map[string]bool) {
 		if root.Signature.Recv() == nil || !isNamed(root.Signature.Recv().Type(), pkg, "Index") {
 			continue
 		}
-		if builders[root.Name()] {
+		if builders[root.Name()] || building[root] || building[fn] {
 			continue
 		}
 		if fn.Parent() == nil {
@@ -943,6 +976,36 @@ func ruleChunkPositive(c *Ctx, rule string) {
 						for _, f := range []ssa.Value{m.X, m.Y} {
 							if _, isPhi := f.(*ssa.Phi); !isPhi {
 								sizes = append(sizes, f)
+							}
+						}
+					}
+				}
+			}
+		}
+		// or a running offset advanced by the size: for start := 0; start < n; start += size
+		for _, l := range naturalLoops(f) {
+			if len(headFact(l)) == 0 {
+				continue
+			}
+			for _, ins := range l.head.Instrs {
+				phi, ok := ins.(*ssa.Phi)
+				if !ok {
+					break
+				}
+				for i, p := range l.head.Preds {
+					if !l.body[p] {
+						continue
+					}
+					if add, ok := phi.Edges[i].(*ssa.BinOp); ok && add.Op == token.ADD {
+						var step ssa.Value
+						if add.X == ssa.Value(phi) {
+							step = add.Y
+						} else if add.Y == ssa.Value(phi) {
+							step = add.X
+						}
+						if step != nil {
+							if _, isK := step.(*ssa.Const); !isK {
+								sizes = append(sizes, step)
 							}
 						}
 					}
